@@ -167,8 +167,11 @@ var answerPool = []ref.RR{
 	{Kind: "A", Addr: netip.MustParseAddr("203.0.113.5")},      // geoip:last only — in no rule
 }
 
-var respNames = []string{"a.com.", "W.B.oRg.", "www.tiny.org."}
-var respQtypes = []uint16{1, 28}
+// (name, qtype) of the answered question
+var respQuestions = []struct {
+	name  string
+	qtype uint16
+}{{"a.com.", 1}, {"W.B.oRg.", 28}, {"www.tiny.org.", 28}, {"a.com.", 28}}
 var respFroms = []string{"ub", "ua", "asis"}
 
 type respInput struct {
@@ -195,22 +198,25 @@ func mkMsg(name string, qtype uint16, ans []ref.RR) *dnsmessage.Msg {
 	return m
 }
 
+// responseInputs: every question of respQuestions x every answer section with at most two records of the
+// pool (enough to tell "some address matches" from "every address matches") x every answering upstream.
 func responseInputs() []respInput {
 	var out []respInput
-	for _, n := range respNames {
-		for _, t := range respQtypes {
-			for sub := 0; sub < 1<<len(answerPool); sub++ {
-				var ans []ref.RR
-				var ips []netip.Addr
-				for b := range answerPool {
-					if sub>>b&1 == 1 {
-						ans = append(ans, answerPool[b])
-						ips = append(ips, answerPool[b].Addr)
-					}
+	for _, q := range respQuestions {
+		for sub := 0; sub < 1<<len(answerPool); sub++ {
+			var ans []ref.RR
+			var ips []netip.Addr
+			for b := range answerPool {
+				if sub>>b&1 == 1 {
+					ans = append(ans, answerPool[b])
+					ips = append(ips, answerPool[b].Addr)
 				}
-				for fi, f := range respFroms {
-					out = append(out, respInput{Input: ref.Input{Name: n, Qtype: t, Answers: ans, From: f}, msg: mkMsg(n, t, ans), from: fi, ips: ips})
-				}
+			}
+			if len(ans) > 2 {
+				continue
+			}
+			for fi, f := range respFroms {
+				out = append(out, respInput{Input: ref.Input{Name: q.name, Qtype: q.qtype, Answers: ans, From: f}, msg: mkMsg(q.name, q.qtype, ans), from: fi, ips: ips})
 			}
 		}
 	}
